@@ -19,6 +19,10 @@ def sh(cmd, cwd=None, timeout=1800):
     p = subprocess.run(cmd, shell=True, cwd=cwd, env=ENV, stdout=subprocess.PIPE, stderr=subprocess.STDOUT, text=True, timeout=timeout)
     return p.returncode, p.stdout
 
+def demo_path(agent_dir):
+    p = os.path.join(agent_dir, "demo_test.go")
+    return p if os.path.exists(p) else p + ".txt"
+
 def confirm(agent_dir, wt):
     res = {}
     sh(f"git -C /repo worktree remove --force {wt}")
@@ -26,7 +30,7 @@ def confirm(agent_dir, wt):
     if rc != 0:
         raise SystemExit("worktree: " + out)
     try:
-        shutil.copy(os.path.join(agent_dir, "demo_test.go"), os.path.join(wt, "zz_seed_demo_test.go"))
+        shutil.copy(demo_path(agent_dir), os.path.join(wt, "zz_seed_demo_test.go"))
         rc, out = sh("go test -vet=off -count=1 -run 'TestSeedDemo' .", cwd=wt)
         res["demo_passes_without_patch"] = rc == 0
         res["demo_without_tail"] = out[-600:]
@@ -41,7 +45,7 @@ def confirm(agent_dir, wt):
         os.remove(os.path.join(wt, "zz_seed_demo_test.go"))
         rc, out = sh("git diff", cwd=wt)
         res["rebased_patch"] = out
-        shutil.copy(os.path.join(agent_dir, "demo_test.go"), os.path.join(wt, "zz_seed_demo_test.go"))
+        shutil.copy(demo_path(agent_dir), os.path.join(wt, "zz_seed_demo_test.go"))
         rc, out = sh("go build ./...", cwd=wt)
         res["builds"] = rc == 0
         rc, out = sh("go test -vet=off -count=1 -run 'TestSeedDemo' .", cwd=wt)
@@ -107,12 +111,15 @@ def main():
     print(json.dumps(results, indent=1))
     dst = f"/verif/seeded/{sid}"
     os.makedirs(dst, exist_ok=True)
-    open(os.path.join(dst, "patch.diff"), "w").write(res["rebased_patch"])
-    shutil.copy(os.path.join(agent_dir, "demo_test.go"), os.path.join(dst, "demo_test.go.txt"))
+    rebased = res["rebased_patch"]
+    open(os.path.join(dst, "patch.diff"), "w").write(rebased)
+    if os.path.abspath(agent_dir) != os.path.abspath(dst):
+        shutil.copy(demo_path(agent_dir), os.path.join(dst, "demo_test.go.txt"))
     notes = ""
     if os.path.exists(os.path.join(agent_dir, "notes.md")):
         notes = open(os.path.join(agent_dir, "notes.md")).read()
-        open(os.path.join(dst, "notes.md"), "w").write(notes)
+        if os.path.abspath(agent_dir) != os.path.abspath(dst):
+            open(os.path.join(dst, "notes.md"), "w").write(notes)
     head = sh("git -C /repo rev-parse --short HEAD")[1].strip()
     meta = {
         "id": sid,
